@@ -25,10 +25,19 @@ const (
 	MaxFrameSize = 128 << 20
 )
 
-var (
-	zenc, _ = zstd.NewWriter(nil, zstd.WithEncoderConcurrency(1))
-	zdec, _ = zstd.NewReader(nil, zstd.WithDecoderConcurrency(1), zstd.WithDecoderMaxMemory(256<<20))
-)
+// The zstd coder objects use channels internally, so they are created per call:
+// a package-level one would be shared between testing/synctest bubbles.
+func zstdEncode(p []byte) []byte {
+	enc, _ := zstd.NewWriter(nil, zstd.WithEncoderConcurrency(1))
+	defer enc.Close()
+	return enc.EncodeAll(p, nil)
+}
+
+func zstdDecode(p []byte) ([]byte, error) {
+	dec, _ := zstd.NewReader(nil, zstd.WithDecoderConcurrency(1), zstd.WithDecoderMaxMemory(256<<20))
+	defer dec.Close()
+	return dec.DecodeAll(p, nil)
+}
 
 // SealFrame computes the header and checksum for (method, compressed, rawLen).
 func SealFrame(method byte, compressed []byte, rawLen uint32) []byte {
@@ -63,7 +72,7 @@ func BuildFrame(method byte, payload []byte) ([]byte, error) {
 		}
 		comp = comp[:n]
 	case MethodZSTD:
-		comp = zenc.EncodeAll(payload, nil)
+		comp = zstdEncode(payload)
 	default:
 		return nil, fmt.Errorf("ref: method %#x", method)
 	}
@@ -121,7 +130,7 @@ func ParseFrame(b []byte) (*Frame, error) {
 		}
 		f.Payload = dst
 	case MethodZSTD:
-		out, err := zdec.DecodeAll(comp, nil)
+		out, err := zstdDecode(comp)
 		if err != nil {
 			return f, fmt.Errorf("ref: zstd: %w", err)
 		}
